@@ -36,6 +36,14 @@ def nontrivial(r):
 
 
 def check_case(ctx, r, indent, eol, add_ws=True):
+    try:
+        return _check_case(ctx, r, indent, eol, add_ws)
+    except Exception as e:
+        ctx.violation("render-raises", "building/rendering raised %r" % e, {"recipe": r, "indent": indent, "eol": eol, "add_ws": add_ws})
+        return False
+
+
+def _check_case(ctx, r, indent, eol, add_ws):
     obj = gen.build(r)
     wit = {"recipe": r, "indent": indent, "eol": eol, "add_ws": add_ws}
     if r["k"] == "list":
